@@ -94,7 +94,7 @@ def assemble(template_path, unit, default_props, skip_fns=None):
     tpl = open(template_path).read().split('\n')
     for l in tpl:
         if l.strip().startswith('//@property '):
-            default_props = l.strip().split()[1:]
+            default_props = [x for part in l.strip().split()[1:] for x in part.split(',') if x]
     asm = Assembled()
     out = []   # list of lines
 
